@@ -12,6 +12,7 @@ mod gen_conv;
 mod gen_gds;
 mod gen_lef;
 mod gen_nlib;
+mod gen_tetris;
 mod hashseed;
 mod rng;
 mod simio;
@@ -54,7 +55,7 @@ fn main() {
                 Some(c) => {
                     let r = supervise(
                         c.as_ref(),
-                        SupArgs { tier: tier_of(&args), master: seed_of(&args), jobs: jobs_of(&args), runs: arg(&args, "--runs").and_then(|s| s.parse().ok()), secs: arg(&args, "--secs").and_then(|s| s.parse().ok()), write_evidence: !args.iter().any(|a| a == "--no-evidence"), quiet: false },
+                        SupArgs { tier: tier_of(&args), master: seed_of(&args), jobs: jobs_of(&args), runs: arg(&args, "--runs").and_then(|s| s.parse().ok()), secs: arg(&args, "--secs").and_then(|s| s.parse().ok()), write_evidence: !args.iter().any(|a| a == "--no-evidence") && std::env::var("VERIF_NO_EVIDENCE").is_err(), quiet: false },
                     );
                     r.exit
                 }
